@@ -122,6 +122,14 @@ fn lat_for(ctx: &mut Ctx, ty: &Ty) -> Vec<u64> {
     gen::lattice(ty.n, ty.es, &mut ctx.rng, nrand)
 }
 
+/// run an operation only to *choose* further inputs (never judged, never logged)
+pub fn peek(ty: &Ty, op: &str, x: &[u64]) -> Option<u64> {
+    match guarded(|| (ty.exec)(op, "m", x)) {
+        Some(Outcome::Ok(v)) => v.first().map(|r| r.u()),
+        _ => None,
+    }
+}
+
 const BIN: [&str; 4] = ["add", "sub", "mul", "div"];
 
 pub fn suite_c01(ctx: &mut Ctx) {
@@ -184,4 +192,506 @@ pub fn suite_self(ctx: &mut Ctx) {
         ];
         dataflow(ctx, ty, &ops, 12, 30, &lat);
     }
+}
+
+// ------------------------------------------------------------------------------------------
+fn all_or_lattice(ctx: &mut Ctx, ty: &Ty, nrandom: usize) -> Vec<u64> {
+    if ty.n <= 16 {
+        (0..(1u64 << ty.n)).collect()
+    } else {
+        let mut v = lat_for(ctx, ty);
+        for _ in 0..nrandom {
+            v.push(gen::random_pattern(ty.n, &mut ctx.rng));
+        }
+        v
+    }
+}
+
+pub fn suite_c05(ctx: &mut Ctx) {
+    const OPS: [(&str, &str); 4] = [("mul_add", "m"), ("mul_sub", "m"), ("sub_product", "m"), ("mul_add", "nt")];
+    for ty in FIXED {
+        let lat = lat_for(ctx, ty);
+        let ntr = if ty.n == 8 { ctx.q(60_000, 1_500_000) } else { ctx.q(40_000, 600_000) };
+        for i in 0..ntr {
+            let pick = |ctx: &mut Ctx| if ty.n == 8 { ctx.rng.gen_range(0..256u64) } else { lat[ctx.rng.gen_range(0..lat.len())] };
+            let a = pick(ctx);
+            let b = if ctx.rng.gen_range(0..4) == 0 { gen::partner(ty.n, ty.es, a, &lat, &mut ctx.rng) } else { pick(ctx) };
+            // the rounded product, to aim the addend at cancellation / ties (input choice only)
+            let prod = peek(ty, "mul", &[a, b]).unwrap_or(0);
+            let mode = ctx.rng.gen_range(0..10);
+            let c = if mode < 4 {
+                let j = ctx.rng.gen_range(-4i64..=4);
+                let near = ((prod as i64 + j) as u64) & gen::mask(ty.n);
+                if ctx.rng.gen::<bool>() { gen::neg(ty.n, near) } else { near }
+            } else if mode < 7 {
+                gen::partner(ty.n, ty.es, prod, &lat, &mut ctx.rng)
+            } else {
+                pick(ctx)
+            };
+            let (op, sp) = OPS[i % 4];
+            // sub_product(c; a, b) = c - a*b : receiver is the addend
+            if op == "sub_product" {
+                ctx.call(ty, op, sp, &[c, a, b]);
+            } else {
+                ctx.call(ty, op, sp, &[a, b, c]);
+            }
+        }
+        // specials
+        let sp = gen::specials(ty.n);
+        for &a in &sp {
+            for &b in &sp {
+                for &c in sp.iter().step_by(3) {
+                    ctx.call(ty, "mul_add", "m", &[a, b, c]);
+                    ctx.call(ty, "mul_sub", "m", &[a, b, c]);
+                    ctx.call(ty, "sub_product", "m", &[a, b, c]);
+                }
+            }
+        }
+        let ops: Vec<(&'static str, &'static str, usize)> = vec![("mul_add", "m", 3), ("mul_sub", "m", 3), ("sub_product", "m", 3), ("mul", "o", 2), ("neg", "o", 1)];
+        let pr = ctx.q(200, 4000);
+        dataflow(ctx, ty, &ops, pr, 30, &lat);
+    }
+}
+
+pub fn suite_c06(ctx: &mut Ctx) {
+    for ty in FIXED {
+        let n = ctx.q(150_000, 2_000_000);
+        let xs = all_or_lattice(ctx, ty, n);
+        for &a in &xs {
+            ctx.call(ty, "sqrt", "m", &[a]);
+        }
+        if ty.n == 32 {
+            // perfect squares and their neighbours: exact roots, and roots just off a boundary
+            let lat = lat_for(ctx, ty);
+            for &y in &lat {
+                if let Some(s) = peek(ty, "mul", &[y, y]) {
+                    for d in [-1i64, 0, 1] {
+                        ctx.call(ty, "sqrt", "m", &[((s as i64 + d) as u64) & gen::mask(32)]);
+                    }
+                }
+            }
+        }
+        for &a in gen::specials(ty.n).iter() {
+            ctx.call(ty, "sqrt", "nt", &[a]);
+        }
+    }
+}
+
+pub fn suite_c09(ctx: &mut Ctx) {
+    const OPS: [&str; 5] = ["round", "floor", "ceil", "trunc", "fract"];
+    for ty in FIXED {
+        let n = ctx.q(40_000, 600_000);
+        let mut xs = all_or_lattice(ctx, ty, n);
+        if ty.n == 32 {
+            // around the binary point at every scale: x.0, x.5, x.5 +- ulp, x.0 +- ulp, small integers
+            for scale in -3i32..=31 {
+                for fl in [0u64, 1 << 63, 1 << 62, 3 << 62, u64::MAX, 1, (1 << 63) | 1, (1 << 63) - 1] {
+                    let base = gen::from_scale(32, 2, scale, fl);
+                    // align the fraction so that the binary point falls at specific bits
+                    for half in 0..=(scale.max(0) as u32 + 1).min(27) {
+                        let nf = gen::frac_bits(32, 2, scale.div_euclid(4));
+                        if half < nf {
+                            let bit = 1u64 << (nf - 1 - half);
+                            for v in [base | bit, (base | bit) + 1, (base | bit).wrapping_sub(1), base & !(bit - 1) & !bit | bit] {
+                                xs.push(v & gen::mask(32));
+                                xs.push(gen::neg(32, v & gen::mask(32)));
+                            }
+                        }
+                    }
+                    xs.push(base);
+                    xs.push(gen::neg(32, base));
+                }
+            }
+            xs.sort();
+            xs.dedup();
+        }
+        for &a in &xs {
+            for op in OPS {
+                ctx.call(ty, op, "m", &[a]);
+            }
+        }
+        for &a in gen::specials(ty.n).iter() {
+            for op in OPS {
+                ctx.call(ty, op, "nt", &[a]);
+            }
+        }
+    }
+}
+
+pub fn suite_c10(ctx: &mut Ctx) {
+    const CMP: [(&str, &str); 15] = [("eq", "m"), ("eq", "o"), ("ne", "o"), ("lt", "m"), ("le", "m"), ("gt", "m"), ("ge", "m"),
+        ("lt", "o"), ("le", "o"), ("gt", "o"), ("ge", "o"), ("cmp", "m"), ("cmp", "o"), ("partial_cmp", "o"), ("copysign", "m")];
+    const SEL: [(&str, &str); 6] = [("min", "m"), ("max", "m"), ("min", "o"), ("max", "o"), ("min", "nt"), ("max", "nt")];
+    const UN: [(&str, &str); 16] = [("neg", "m"), ("neg", "o"), ("abs", "m"), ("signum", "m"), ("is_sign_positive", "m"), ("is_sign_negative", "m"),
+        ("is_zero", "m"), ("is_nar", "m"), ("is_nan", "m"), ("is_finite", "m"), ("is_infinite", "m"), ("is_normal", "m"), ("classify", "m"),
+        ("abs", "nt"), ("signum", "nt"), ("classify", "nt")];
+    for ty in FIXED {
+        let lat = lat_for(ctx, ty);
+        // unary: every pattern (P8, P16) / lattice + random (P32)
+        let xs = all_or_lattice(ctx, ty, 20_000);
+        for &a in &xs {
+            for (op, sp) in UN {
+                ctx.call(ty, op, sp, &[a]);
+            }
+            // neg is an involution: feed the result back
+            if let Some(v) = ctx.call(ty, "neg", "m", &[a]) {
+                ctx.call(ty, "neg", "m", &[v[0].u()]);
+            }
+        }
+        // pairs
+        let mut pairs: Vec<(u64, u64)> = Vec::new();
+        if ty.n == 8 {
+            for a in 0..256u64 {
+                for b in 0..256u64 {
+                    pairs.push((a, b));
+                }
+            }
+        } else {
+            let np = ctx.q(25_000, 400_000);
+            for _ in 0..np {
+                let a = lat[ctx.rng.gen_range(0..lat.len())];
+                let b = match ctx.rng.gen_range(0..4) {
+                    0 => lat[ctx.rng.gen_range(0..lat.len())],
+                    1 => ((a as i64 + ctx.rng.gen_range(-2i64..=2)) as u64) & gen::mask(ty.n),
+                    2 => gen::neg(ty.n, a),
+                    _ => gen::random_pattern(ty.n, &mut ctx.rng),
+                };
+                pairs.push((a, b));
+            }
+            for &a in gen::specials(ty.n).iter() {
+                for &b in gen::specials(ty.n).iter() {
+                    pairs.push((a, b));
+                }
+            }
+        }
+        for (i, &(a, b)) in pairs.iter().enumerate() {
+            if ty.n == 8 {
+                for (op, sp) in CMP {
+                    ctx.call(ty, op, sp, &[a, b]);
+                }
+                for (op, sp) in SEL {
+                    ctx.call(ty, op, sp, &[a, b]);
+                }
+            } else {
+                // rotate through the spellings, 5 per pair
+                for j in 0..5 {
+                    let (op, sp) = CMP[(i * 5 + j) % CMP.len()];
+                    ctx.call(ty, op, sp, &[a, b]);
+                }
+                let (op, sp) = SEL[i % SEL.len()];
+                ctx.call(ty, op, sp, &[a, b]);
+            }
+        }
+        // clamp triples (precondition lo <= hi is part of the contract: generate both, the spec skips lo > hi)
+        let nt = ctx.q(30_000, 400_000);
+        for i in 0..nt {
+            let pick = |ctx: &mut Ctx| if ty.n == 8 { ctx.rng.gen_range(0..256u64) } else { lat[ctx.rng.gen_range(0..lat.len())] };
+            let (a, mut lo, mut hi) = (pick(ctx), pick(ctx), pick(ctx));
+            // order lo/hi by the signed pattern so that most triples satisfy the precondition
+            let sx = |p: u64| ((p << (64 - ty.n)) as i64) >> (64 - ty.n);
+            if sx(lo) > sx(hi) {
+                std::mem::swap(&mut lo, &mut hi);
+            }
+            ctx.call(ty, "clamp", if i % 2 == 0 { "m" } else { "o" }, &[a, lo, hi]);
+        }
+    }
+}
+
+// ------------------------------------------------------------------------------------------
+fn f32_neighbours(v: f64, out: &mut Vec<u64>) {
+    let f = v as f32;
+    let b = f.to_bits();
+    for d in [-2i64, -1, 0, 1, 2] {
+        out.push(((b as i64 + d) as u64) & 0xffff_ffff);
+    }
+}
+fn f64_neighbours(v: f64, out: &mut Vec<u64>) {
+    let b = v.to_bits();
+    for d in [-2i64, -1, 0, 1, 2] {
+        out.push((b as i64 + d) as u64);
+    }
+}
+
+pub fn suite_c02(ctx: &mut Ctx) {
+    // floats common to all targets
+    let mut f32s: Vec<u64> = vec![0, 0x8000_0000, 0x7f80_0000, 0xff80_0000, 0x7fc0_0000, 0xffc0_0000, 0x7f80_0001, 0x7fff_ffff, 0xffff_ffff,
+        0x7f7f_ffff, 0xff7f_ffff, 1, 2, 0x8000_0001, 0x007f_ffff, 0x0080_0000, 0x0080_0001, 0x3f80_0000, 0xbf80_0000];
+    let mut f64s: Vec<u64> = vec![0, 1 << 63, 0x7ff0_0000_0000_0000, 0xfff0_0000_0000_0000, 0x7ff8_0000_0000_0000, 0xfff8_0000_0000_0000,
+        0x7ff0_0000_0000_0001, 0x7fff_ffff_ffff_ffff, u64::MAX, 0x7fef_ffff_ffff_ffff, 0xffef_ffff_ffff_ffff, 1, 2, (1 << 63) | 1,
+        0x000f_ffff_ffff_ffff, 0x0010_0000_0000_0000, 0x3ff0_0000_0000_0000, 0xbff0_0000_0000_0000];
+    for e in 0..=255u64 {
+        for m in [0u64, 1, 0x40_0000, 0x7f_ffff, 0x40_0001, 0x3f_ffff] {
+            f32s.push((e << 23) | m);
+            f32s.push(0x8000_0000 | (e << 23) | m);
+        }
+    }
+    for k in 0..23 {
+        f32s.push(1 << k); // every subnormal binade
+        f32s.push((1 << k) | 1);
+    }
+    for e in (0..=2047u64).step_by(1) {
+        if e > 1023 - 140 && e < 1023 + 140 || e < 3 || e > 2044 || e % 64 == 0 {
+            for m in [0u64, 1, 1 << 51, (1 << 52) - 1, (1 << 51) | 1, (1 << 51) - 1, 1 << 24, (1 << 24) | 1, (1 << 24) - 1, 1 << 23] {
+                f64s.push((e << 52) | m);
+                f64s.push((1 << 63) | (e << 52) | m);
+            }
+        }
+    }
+    for k in 0..52 {
+        f64s.push(1 << k);
+    }
+    for _ in 0..ctx.q(20_000, 400_000) {
+        f32s.push(ctx.rng.gen::<u32>() as u64);
+        f64s.push(ctx.rng.gen::<u64>());
+        // exponent in the posit range, random significand with a sparse tail
+        let e32 = ctx.rng.gen_range(127 - 126..127 + 127) as u64;
+        f32s.push(((ctx.rng.gen::<u32>() as u64 & 1) << 31) | (e32 << 23) | (ctx.rng.gen::<u32>() as u64 & 0x7f_ffff));
+        let e64 = ctx.rng.gen_range(1023 - 130..1023 + 130) as u64;
+        let tail = match ctx.rng.gen_range(0..4) { 0 => 0, 1 => 1, 2 => ctx.rng.gen::<u64>() & 0xff, _ => ctx.rng.gen::<u64>() };
+        let m = ((ctx.rng.gen::<u64>() << 24) ^ tail) & ((1 << 52) - 1);
+        f64s.push(((ctx.rng.gen::<u64>() & 1) << 63) | (e64 << 52) | m);
+    }
+    for ty in FIXED {
+        // every rounding boundary of the target: the (N+1)-bit posits between consecutive N-bit posits
+        let mut b32: Vec<u64> = Vec::new();
+        let mut b64: Vec<u64> = Vec::new();
+        let n1 = ty.n + 1;
+        let mids: Vec<u64> = if ty.n <= 16 {
+            (0..(1u64 << (ty.n - 1))).map(|p| 2 * p + 1).collect()
+        } else {
+            let lat = lat_for(ctx, ty);
+            let mut v: Vec<u64> = lat.iter().filter(|&&p| p < (1 << 31) && p != 0).flat_map(|&p| [2 * p + 1, 2 * p - 1]).collect();
+            for _ in 0..ctx.q(30_000, 500_000) {
+                v.push((ctx.rng.gen::<u64>() & gen::mask(32)) | 1);
+            }
+            v
+        };
+        for &m in &mids {
+            if m == 0 || m >= (1 << ty.n) {
+                continue;
+            }
+            let v = gen::to_f64_exact(n1, ty.es, m);
+            f64_neighbours(v, &mut b64);
+            f64_neighbours(-v, &mut b64);
+            if ty.n <= 16 || m % 5 == 0 {
+                f32_neighbours(v, &mut b32);
+                f32_neighbours(-v, &mut b32);
+            }
+        }
+        // the N-bit posits themselves (exact inputs) and their float neighbours
+        let reps: Vec<u64> = if ty.n <= 16 { (1..(1u64 << (ty.n - 1))).step_by(if ty.n == 16 { 3 } else { 1 }).collect() } else { lat_for(ctx, ty).into_iter().filter(|&p| p != 0 && p < (1 << 31)).collect() };
+        for &p in &reps {
+            let v = gen::to_f64_exact(ty.n, ty.es, p);
+            f64_neighbours(v, &mut b64);
+            f32_neighbours(v, &mut b32);
+        }
+        b32.extend_from_slice(&f32s);
+        b64.extend_from_slice(&f64s);
+        b32.sort();
+        b32.dedup();
+        b64.sort();
+        b64.dedup();
+        for (i, &x) in b32.iter().enumerate() {
+            ctx.call(ty, "from_f32", ["m", "f", "i", "nt"][if i % 16 == 0 { (i / 16) % 4 } else { 0 }], &[x]);
+            if i % 4 == 0 {
+                // the same value through f64: from_f32(x) must equal from_f64(x as f64)
+                ctx.call(ty, "from_f64", "m", &[(f32::from_bits(x as u32) as f64).to_bits()]);
+            }
+        }
+        for (i, &x) in b64.iter().enumerate() {
+            ctx.call(ty, "from_f64", ["m", "f", "i", "nt", "nc"][if i % 16 == 0 { (i / 16) % 5 } else { 0 }], &[x]);
+        }
+    }
+}
+
+pub fn suite_c03(ctx: &mut Ctx) {
+    for ty in FIXED {
+        let n = ctx.q(100_000, 2_000_000);
+        let xs = all_or_lattice(ctx, ty, n);
+        for (i, &a) in xs.iter().enumerate() {
+            ctx.call(ty, "to_f64", "m", &[a]);
+            ctx.call(ty, "to_f32", "m", &[a]);
+            if i % 8 == 0 {
+                ctx.call(ty, "to_f64", "f", &[a]);
+                ctx.call(ty, "to_f32", "f", &[a]);
+                ctx.call(ty, "to_f64", "nt", &[a]);
+            }
+            ctx.call(ty, "f64_roundtrip", "m", &[a]);
+            if ty.n <= 16 || i % 4 == 0 {
+                ctx.call(ty, "str_roundtrip", "m", &[a]);
+            }
+        }
+    }
+}
+
+pub fn suite_c07(ctx: &mut Ctx) {
+    const FROM: [(&str, u32); 10] = [("from_i8", 8), ("from_u8", 8), ("from_i16", 16), ("from_u16", 16), ("from_i32", 32), ("from_u32", 32),
+        ("from_i64", 64), ("from_u64", 64), ("from_isize", 64), ("from_usize", 64)];
+    const TO: [&str; 4] = ["to_i32", "to_u32", "to_i64", "to_u64"];
+    for ty in FIXED {
+        for (op, w) in FROM {
+            let xs: Vec<u64> = if w <= 16 { (0..(1u64 << w)).collect() } else { let k = ctx.q(3_000, 100_000); gen::ints(w, &mut ctx.rng, k) };
+            for (i, &x) in xs.iter().enumerate() {
+                ctx.call(ty, op, "m", &[x]);
+                if i % 16 == 0 {
+                    ctx.call(ty, op, "f", &[x]);
+                }
+            }
+        }
+        let n = ctx.q(40_000, 1_000_000);
+        let mut xs = all_or_lattice(ctx, ty, n);
+        if ty.n == 32 {
+            // half-integers and the type bounds: around 2^31, 2^32, 2^63, 2^64, and x.5 at every scale
+            for scale in -2i32..=66 {
+                for fl in [0u64, 1 << 63, u64::MAX, 1, 3 << 62, (1 << 63) - 1, (1 << 63) | 1] {
+                    let p = gen::from_scale(32, 2, scale, fl);
+                    for d in -2i64..=2 {
+                        let q = ((p as i64 + d) as u64) & gen::mask(32);
+                        xs.push(q);
+                        xs.push(gen::neg(32, q));
+                    }
+                    // put a single 1 at the half position
+                    let nf = gen::frac_bits(32, 2, scale.div_euclid(4));
+                    if scale >= 0 && (scale as u32) < nf {
+                        let half = 1u64 << (nf - 1 - scale as u32);
+                        for q in [p | half, (p | half) + 1, (p | half) - 1, (p & !(half - 1)) | half, ((p & !(half - 1)) | half) ^ (half << 1)] {
+                            xs.push(q & gen::mask(32));
+                            xs.push(gen::neg(32, q & gen::mask(32)));
+                        }
+                    }
+                }
+            }
+            xs.sort();
+            xs.dedup();
+        }
+        for (i, &a) in xs.iter().enumerate() {
+            for op in TO {
+                ctx.call(ty, op, "m", &[a]);
+            }
+            if i % 16 == 0 {
+                for op in TO {
+                    ctx.call(ty, op, "f", &[a]);
+                }
+            }
+        }
+    }
+}
+
+pub fn suite_c08(ctx: &mut Ctx) {
+    for ty in FIXED {
+        let n = ctx.q(100_000, 2_000_000);
+        let mut xs = all_or_lattice(ctx, ty, n);
+        if ty.n == 32 {
+            // boundaries of the narrower formats, expressed as P32 patterns, +- 2 ulp
+            for (n2, es2) in [(8u32, 0u32), (16, 1)] {
+                for m in 0..(1u64 << n2) {
+                    let mid = 2 * m + 1; // (n2+1)-bit posit between m and m+1
+                    if mid >= (1 << n2) {
+                        continue;
+                    }
+                    let (_, scale, nf, f) = gen::decode(n2 + 1, es2, mid);
+                    let fl = if nf == 0 { 0 } else { f << (64 - nf) };
+                    let p = gen::from_scale(32, 2, scale, fl);
+                    for d in -2i64..=2 {
+                        let q = ((p as i64 + d) as u64) & gen::mask(32);
+                        xs.push(q);
+                        xs.push(gen::neg(32, q));
+                    }
+                }
+            }
+            xs.sort();
+            xs.dedup();
+        }
+        if ty.n == 16 {
+            // P16 -> P8 boundaries are all in the exhaustive set already
+        }
+        for (i, &a) in xs.iter().enumerate() {
+            for op in ["to_p8", "to_p16", "to_p32"] {
+                ctx.call(ty, op, if i % 8 == 0 { "i" } else { "f" }, &[a]);
+            }
+        }
+    }
+}
+
+/// C17: every spelling of every forwarded operation, on lattice inputs
+pub fn suite_c17(ctx: &mut Ctx) {
+    const T: &[(&str, usize, &[&str])] = &[
+        ("add", 2, &["m", "o", "a", "al"]), ("sub", 2, &["m", "o", "a"]), ("mul", 2, &["m", "o", "a", "al"]), ("div", 2, &["m", "o", "a"]),
+        ("rem", 2, &["m", "o", "a"]), ("neg", 1, &["m", "o"]), ("recip", 1, &["m", "nt"]),
+        ("mul_add", 3, &["m", "nt"]), ("sqrt", 1, &["m", "nt"]),
+        ("round", 1, &["m", "nt"]), ("floor", 1, &["m", "nt"]), ("ceil", 1, &["m", "nt"]), ("trunc", 1, &["m", "nt"]), ("fract", 1, &["m", "nt"]),
+        ("eq", 2, &["m", "o"]), ("lt", 2, &["m", "o"]), ("le", 2, &["m", "o"]), ("gt", 2, &["m", "o"]), ("ge", 2, &["m", "o"]),
+        ("cmp", 2, &["m", "o"]), ("partial_cmp", 2, &["o"]), ("min", 2, &["m", "o", "nt"]), ("max", 2, &["m", "o", "nt"]),
+        ("abs", 1, &["m", "nt", "sg"]), ("signum", 1, &["m", "nt", "sg"]), ("abs_sub", 2, &["sg"]),
+        ("is_zero", 1, &["m", "nt"]), ("is_one", 1, &["nt"]), ("is_nan", 1, &["m", "nt"]), ("is_infinite", 1, &["m", "nt"]),
+        ("is_finite", 1, &["m", "nt"]), ("is_normal", 1, &["m", "nt"]), ("is_sign_positive", 1, &["m", "nt"]),
+        ("is_sign_negative", 1, &["m", "nt"]), ("is_positive", 1, &["sg"]), ("is_negative", 1, &["sg"]), ("classify", 1, &["m", "nt"]),
+        ("to_f32", 1, &["m", "f"]), ("to_f64", 1, &["m", "f", "nt"]),
+        ("to_i32", 1, &["m", "f"]), ("to_u32", 1, &["m", "f"]), ("to_i64", 1, &["m", "f", "nt"]), ("to_u64", 1, &["m", "f", "nt"]),
+        ("to_i8", 1, &["m", "f"]), ("to_i16", 1, &["m", "f"]), ("to_u8", 1, &["m", "f"]), ("to_u16", 1, &["m", "f"]),
+        ("to_isize", 1, &["m", "f"]), ("to_usize", 1, &["m", "f"]),
+        ("to_p8", 1, &["f", "i"]), ("to_p16", 1, &["f", "i"]), ("to_p32", 1, &["f", "i"]),
+    ];
+    const TI: &[(&str, u32, &[&str])] = &[
+        ("from_i8", 8, &["m", "f", "nt"]), ("from_i16", 16, &["m", "f", "nt"]), ("from_i32", 32, &["m", "f", "nt"]), ("from_i64", 64, &["m", "f", "nt"]),
+        ("from_isize", 64, &["m", "f"]), ("from_u8", 8, &["m", "f", "nt"]), ("from_u16", 16, &["m", "f", "nt"]), ("from_u32", 32, &["m", "f", "nt"]),
+        ("from_u64", 64, &["m", "f", "nt"]), ("from_usize", 64, &["m", "f"]),
+    ];
+    const CONSTS: [&str; 21] = ["ZERO", "ONE", "NAR", "NAN", "INFINITY", "MAX", "MIN", "MIN_POSITIVE", "EPSILON", "nt_zero", "nt_one", "nt_nan",
+        "nt_infinity", "nt_neg_infinity", "nt_neg_zero", "nt_min_value", "nt_max_value", "nt_min_positive_value", "b_min_value", "b_max_value", "default"];
+    const MC: [&str; 16] = ["E", "FRAC_1_PI", "FRAC_1_SQRT_2", "FRAC_2_PI", "FRAC_2_SQRT_PI", "FRAC_PI_2", "FRAC_PI_3", "FRAC_PI_4", "FRAC_PI_6",
+        "FRAC_PI_8", "LN_10", "LN_2", "LOG10_E", "LOG2_E", "PI", "SQRT_2"];
+    for ty in FIXED {
+        let lat = lat_for(ctx, ty);
+        let reps = ctx.q(400, 6000);
+        for (op, ar, sps) in T {
+            for _ in 0..reps {
+                let mut x: Vec<u64> = (0..*ar).map(|_| match ctx.rng.gen_range(0..5) { 0 => gen::random_pattern(ty.n, &mut ctx.rng), _ => lat[ctx.rng.gen_range(0..lat.len())] }).collect();
+                if *ar >= 2 && ctx.rng.gen_range(0..4) == 0 {
+                    x[1] = gen::partner(ty.n, ty.es, x[0], &lat, &mut ctx.rng);
+                }
+                for sp in sps.iter() {
+                    ctx.call(ty, op, sp, &x);
+                }
+            }
+        }
+        for (op, w, sps) in TI {
+            let k = ctx.q(40, 2000);
+            let xs = gen::ints(*w, &mut ctx.rng, k);
+            for &x in xs.iter().step_by(if ctx.thorough { 1 } else { 3 }) {
+                for sp in sps.iter() {
+                    ctx.call(ty, op, sp, &[x]);
+                }
+            }
+        }
+        // floats
+        for _ in 0..reps {
+            let e64 = ctx.rng.gen_range(1023 - 130..1023 + 130) as u64;
+            let x = ((ctx.rng.gen::<u64>() & 1) << 63) | (e64 << 52) | (ctx.rng.gen::<u64>() & ((1 << 52) - 1));
+            for sp in ["m", "f", "i", "nt", "nc"] {
+                ctx.call(ty, "from_f64", sp, &[x]);
+            }
+            let y = (f64::from_bits(x) as f32).to_bits() as u64;
+            for sp in ["m", "f", "i", "nt"] {
+                ctx.call(ty, "from_f32", sp, &[y]);
+            }
+        }
+        for c in CONSTS {
+            ctx.call(ty, "const", c, &[]);
+        }
+        for c in MC {
+            ctx.call(ty, "mathconst", c, &[]);
+        }
+        // clamp
+        for _ in 0..reps {
+            let mut x: Vec<u64> = (0..3).map(|_| lat[ctx.rng.gen_range(0..lat.len())]).collect();
+            let sx = |p: u64| ((p << (64 - ty.n)) as i64) >> (64 - ty.n);
+            if sx(x[1]) > sx(x[2]) {
+                x.swap(1, 2);
+            }
+            ctx.call(ty, "clamp", "m", &x);
+            ctx.call(ty, "clamp", "o", &x);
+        }
+    }
+    crate::qdrive::spellings(ctx);
 }
